@@ -438,13 +438,27 @@ func init() {
 			}
 			return 0
 		}
-		for _, spec := range [][2]string{{"light/rpc", "Client.Tx"}, {"types", "TxProof.Validate"}, {"types", "PartSet.AddPart"}} {
-			f := c.fn(spec[0], spec[1])
-			if f == nil {
+		seenFn := map[*ssa.Function]bool{}
+		for _, spec := range [][2]string{{"light/rpc", "Client.Tx"}, {"light/rpc", "Client.TxSearch"}, {"types", "TxProof.Validate"}, {"types", "PartSet.AddPart"}} {
+			f0 := c.fn(spec[0], spec[1])
+			if f0 == nil {
 				continue
 			}
-			for _, di := range w.deepInstrs(f, 2) {
-				b, ok := di.in.(*ssa.BinOp)
+			// the function and what it calls in its own package, two levels down (a check shared by two
+			// callers lives in a helper with more than one call site)
+			var all []ssa.Instruction
+			for _, g := range pkgCallees(f0, 2) {
+				if seenFn[g] {
+					continue
+				}
+				seenFn[g] = true
+				for _, b := range g.Blocks {
+					all = append(all, b.Instrs...)
+				}
+			}
+			f := f0
+			for _, in := range all {
+				b, ok := in.(*ssa.BinOp)
 				if !ok || !(b.Op == token.EQL || b.Op == token.NEQ) {
 					continue
 				}
@@ -499,4 +513,27 @@ func init() {
 		c.Check(n == 1, fk+" :: adoption of the reassembled block found", w.pos(f.Pos()), "1", fmt.Sprintf("%d", n))
 	})
 	alias("C13", "R13", "C10", "R9", "block sync recomputes the block id from the block: what consensus commits must be reproducible from the block alone")
+}
+
+// pkgCallees: f and the functions of f's own package it calls statically, depth levels down.
+func pkgCallees(f *ssa.Function, depth int) []*ssa.Function {
+	out := []*ssa.Function{f}
+	seen := map[*ssa.Function]bool{f: true}
+	var walk func(g *ssa.Function, d int)
+	walk = func(g *ssa.Function, d int) {
+		if d <= 0 {
+			return
+		}
+		for _, call := range rawCallInstrs(g) {
+			h := staticCallee(call)
+			if h == nil || h.Blocks == nil || seen[h] || pkgPathOf(h) != pkgPathOf(f) {
+				continue
+			}
+			seen[h] = true
+			out = append(out, h)
+			walk(h, d-1)
+		}
+	}
+	walk(f, depth)
+	return out
 }
